@@ -438,7 +438,11 @@ with p_selector_loop (fuel : nat) (acc_pe : bool) (i : nat) (result : sel) {stru
       let '(cb, j) := if N.eqb c 43 || N.eqb c 62 || N.eqb c 126 then (c, skip_ws (S j)) else (comb0, j) in
       match comb_of cb with
       | None => Ok (POk result j)                           (* combinator == 0 *)
-      | Some cm => bindP (p_seq f acc_pe j) (fun c i => p_selector_loop f acc_pe i (SCombined result cm c))
+      | Some cm =>
+          match pseudo_element result with
+          | _ :: _ => Ok PErr                               (* :866 (fix) a pseudo-element must end the selector *)
+          | [] => bindP (p_seq f acc_pe j) (fun c i => p_selector_loop f acc_pe i (SCombined result cm c))
+          end
       end
   end
 with p_seq (fuel : nat) (acc_pe : bool) (i : nat) {struct fuel} : res (pr sel) :=                     (* :759 *)
